@@ -103,6 +103,17 @@ func enumCases() []enumCase {
 			Tgt:     enumDef{"int", []enumMember{{"TgtRed", "4"}, {"TgtGreen", "5"}, {"TgtBlue", "6"}}},
 			Lines:   []string{`enum:transform regex Src(\w+) Tgt$1`, "enum:map SrcRed TgtBlue"},
 			Mapping: map[string]string{"SrcRed": "TgtBlue", "SrcGreen": "TgtGreen", "SrcBlue": "TgtBlue"}},
+		// enum:exclude PACKAGE:NAME - an alternation inside NAME stays inside NAME: types of other packages are not excluded
+		{Name: "exclude_other_package_alternation", Src: rgb("int", "0", "1", "2"), Tgt: rgb("int", "7", "8", "9"),
+			ExtraConv: []string{"enum:exclude corpus/GRP/pfxnone:Flag|Color", "enum:exclude corpus/GRP/pfxnone|corpus/other:Color"}, Mapping: same},
+		// enum:map with the same name on both sides is a mapping like any other: it beats the transformer, and it is
+		// checked against the members that exist
+		{Name: "identity_map_beats_transform", Src: enumDef{"int", []enumMember{{"Red", "0"}, {"Green", "1"}, {"Blue", "2"}}},
+			Tgt:     enumDef{"int", []enumMember{{"Red", "4"}, {"XRed", "5"}, {"XGreen", "6"}, {"XBlue", "7"}}},
+			Lines:   []string{`enum:transform regex (.+) X$1`, "enum:map Red Red"},
+			Mapping: map[string]string{"Red": "Red", "Green": "XGreen", "Blue": "XBlue"}},
+		{Name: "fail_identity_map_missing_key", Src: rgb("int", "0", "1", "2"), Tgt: rgb("int", "7", "8", "9"),
+			Lines: []string{"enum:map Oops Oops"}, Mapping: same, Fail: "enum:map Oops Oops names a source member that does not exist"},
 		// several transformers on one method: each runs with its own configuration
 		{Name: "two_transformers", Src: enumDef{"int", []enumMember{{"SrcRed", "0"}, {"SrcGreen", "1"}, {"OldBlue", "2"}}},
 			Tgt:     enumDef{"int", []enumMember{{"TgtRed", "4"}, {"TgtGreen", "5"}, {"NewBlue", "6"}}},
